@@ -344,6 +344,8 @@ def c04(res: CheckResult) -> None:
              list(DF.fam_hier(res.tier, rng)), ic, verdicts=True, rng=rng)
     def_unit(res, "diamonds where one branch inherits and the other overrides, invariants introduced at different levels",
              list(DF.fam_shadow(res.tier, rng)), ic, verdicts=True, rng=rng)
+    def_unit(res, "a class in the middle of a chain re-declares the member abstract, a class below implements it",
+             list(DF.fam_abstract(res.tier, rng)), ic, verdicts=True, rng=rng)
     def_unit(res, "every placement of {absent, bare, pre, post} on every class of every shape (exhaustive)",
              list(DF.fam_hier_small(res.tier, rng)), ic, verdicts=True, rng=rng)
     def_unit(res, "special methods (__call__) in hierarchies: contracts inherited and invariants checked like public methods",
